@@ -33,7 +33,9 @@ ASSUMPTIONS = [
 ]
 PARTIAL = ('C14_reference_chunking / C14_reference_final_lf prove the chunking property of the reference tokenizer, and '
            'C14_tokens_spec_partial states the token-level clause for the concrete stack against that tokenizer with the '
-           'constants computed; its one remaining hypothesis is the token-faithful echo of the lexer model (C06). '
+           'constants computed; its one remaining hypothesis is the token-faithful echo of the lexer model (C06), which '
+           'C14_echo_predicate_suffices reduces to C06\'s own predicate holds_C06 on (text, echo) + no lone CR in the echo '
+           '(C14_tokens_spec_partial_c06). '
            'The token-level clause (significant tokens of the result = header ++ package blocks ++ loader ++ main '
            'tokens, package bodies intact apart from the stripped game-loop functions) is proved only RELATIVE to '
            'hypotheses that are visible in the statements and not discharged for the concrete stack: '
